@@ -67,9 +67,10 @@ def driver_list(n_values, k, reduced=False):
     for j, bs in enumerate(sizes):
         # every bufsize: between two fill chains that stop (LenaStopFill) before the flow ends
         ds.append(("split", bs, "tuple", True, "afterstop"))
-        if (j + k) % 2 == 0:
-            ds.append(("split", bs, "tuple", True, "alone"))
+        # as the only branch: every third bufsize as a tuple, every third as a FillComputeSeq without copying
         if (j + k) % 3 == 0:
+            ds.append(("split", bs, "tuple", True, "alone"))
+        if (j + k) % 3 == 1:
             ds.append(("split", bs, "fcseq", False, "alone"))
     # the chain as one branch among others (a context-changing branch before it, an ordinary one after it)
     for j, place in enumerate(("middle", "first", "last")):
